@@ -3,8 +3,8 @@
    and constants from the REGENERATED gen/Gen_envtables.v; bi.pow from the REGENERATED
    gen/Gen_builtinsR.v).  server_shape_names / decode_env / decode_ienv are the hand-transcribed
    reference of the server's documented layout and shape numbers. *)
-From Coq Require Import ZArith QArith Qabs Reals String List Permutation.
-Require Import SC3.lib.PyNum SC3.gen.Gen_envtables SC3.gen.Gen_builtinsR SC3.model.Env.
+From Coq Require Import ZArith QArith Qabs Reals String List Permutation Sorting.Sorted.
+Require Import SC3.lib.PyNum SC3.gen.Gen_envtables SC3.gen.Gen_builtinsR SC3.gen.Gen_envR SC3.model.Env.
 Require Import SC3.proofs.C19_format SC3.proofs.C19_at SC3.proofs.C19_shapes SC3.proofs.C19_ctor SC3.proofs.C19_real.
 Import ListNotations.
 Open Scope list_scope.
@@ -115,8 +115,34 @@ Theorem ctor_breakpoints_xyc : forall pts s0 sr, sort_pts pts = s0 :: sr ->
   /\ (Forall ok (map pt_time s) -> forall k, (k < length s)%nat ->
       breaktime e k == toQ (pt_time (nth k s s0)) - toQ (pt_time s0)).
 Proof. exact xyc_bp. Qed.
-(* partial: that sort_pts returns its points in non-decreasing time order is exercised by the
-   correspondence only (full statement: StronglySorted (fun p q => toQ (pt_time p) <= toQ (pt_time q)) (sort_pts pts)) *)
+(* the sort of xyc is a sort, and the breakpoints ARE the points in time order (times from the first) *)
+Theorem ctor_breakpoints_xyc_sorted : forall pts s0 sr,
+  sort_pts pts = s0 :: sr -> Forall (fun q => ok (pt_time q)) pts ->
+  let s := s0 :: sr in
+  exists e, env_xyc pts = Ok e
+  /\ Permutation pts s /\ Sorted le_time s
+  /\ bp_eq (breakpoints e) (map (fun p => (toQ (pt_time p) - toQ (pt_time s0), toQ (pt_level p))) s)
+  /\ offset e = Some (pt_time s0) /\ curves e = removelast (map snd s)
+  /\ release e = None /\ loop e = None.
+Proof. exact xyc_breakpoints. Qed.
+(* pairs attaches 'lin' / the one curve / the i-th curve to the i-th pair (ValueError when the lengths
+   differ) and is xyc of the result *)
+Theorem ctor_pairs_is_xyc : forall ps c,
+  match attach ps c with
+  | Some pts => env_pairs ps c = env_xyc pts /\ map strip pts = ps
+                /\ (forall l, c = PList l -> map snd pts = l)
+  | None => env_pairs ps c = Err ValueError
+  end.
+Proof. exact pairs_is_xyc. Qed.
+Theorem ctor_breakpoints_pairs : forall ps c pts s0 sr,
+  attach ps c = Some pts -> sort_pts pts = s0 :: sr -> Forall (fun q => ok (fst q)) ps ->
+  let s := s0 :: sr in
+  exists e, env_pairs ps c = Ok e
+  /\ Permutation ps (map strip s) /\ Sorted le_time s
+  /\ bp_eq (breakpoints e) (map (fun p => (toQ (pt_time p) - toQ (pt_time s0), toQ (pt_level p))) s)
+  /\ offset e = Some (pt_time s0) /\ curves e = removelast (map snd s)
+  /\ release e = None /\ loop e = None.
+Proof. exact pairs_breakpoints. Qed.
 
 (* --- evaluation: for EVERY segment evaluator sv (in particular Env._env_at's, model seg_value) ----- *)
 Theorem env_at_breakpoints : forall sv e o k s,
@@ -149,6 +175,54 @@ Theorem env_at_holds_last : forall sv e o t,
   env_at_with sv e t = Ok (level_at e (length (times e))).
 Proof. intros sv e o t Hwf Ho Hn. exact (env_at_after sv e o Hwf Ho Hn t). Qed.
 
+(* --- coinciding breakpoints, segment ends, offset, totality ---------------------------------------- *)
+(* at ANY time that is, as a rational, the k-th breakpoint (segment k of positive length) *)
+Theorem env_at_breakpoints_any_time : forall sv e o k s t,
+  wf_env e -> offset e = Some o -> times_nonneg e ->
+  segment e k = Some s -> 0 < toQ (s_dur s) ->
+  seg_starts sv (toQ (s_shape s)) (toQ (s_curve s)) ->
+  t - toQ o == breaktime e k ->
+  exists v, env_at_with sv e t = Ok v /\ v == level_at e k.
+Proof. intros sv e o k s t Hwf Ho Hn. exact (env_at_breakpoint_at sv e o Hwf Ho Hn k s t). Qed.
+(* zero-length segments between breakpoints j and k: the value there is the level of the LAST of the
+   coinciding breakpoints (the code skips every segment with time >= its end) *)
+Theorem env_at_coinciding_breakpoints : forall sv e o j k s,
+  wf_env e -> offset e = Some o -> times_nonneg e ->
+  segment e k = Some s -> 0 < toQ (s_dur s) ->
+  seg_starts sv (toQ (s_shape s)) (toQ (s_curve s)) ->
+  breaktime e j == breaktime e k ->
+  exists v, env_at_with sv e (toQ o + breaktime e j) = Ok v /\ v == level_at e k.
+Proof. intros sv e o j k s Hwf Ho Hn. exact (env_at_coinciding sv e o Hwf Ho Hn j k s). Qed.
+Theorem zero_length_segment_has_no_inside : forall e k s x,
+  segment e k = Some s -> toQ (s_dur s) == 0 -> ~ (breaktime e k <= x /\ x < breaktime e (S k)).
+Proof. exact zero_length_never_located. Qed.
+(* exactly at the end (also through trailing zero-length segments) the last level is returned *)
+Theorem env_at_end_exact : forall sv e o j t,
+  wf_env e -> offset e = Some o -> times_nonneg e ->
+  times e <> [] -> breaktime e j == breaktime e (length (times e)) -> t - toQ o == breaktime e j ->
+  env_at_with sv e t = Ok (level_at e (length (times e))).
+Proof. intros sv e o j t Hwf Ho Hn. exact (env_at_end sv e o Hwf Ho Hn j t). Qed.
+(* times before the offset (negative relative time) evaluate as the offset itself *)
+Theorem env_at_before_offset : forall sv e o t,
+  offset e = Some o -> t - toQ o <= 0 -> env_at_with sv e t = env_at_with sv e (toQ o).
+Proof. intros sv e o t Ho. exact (C19_at.env_at_before_offset sv e o Ho t). Qed.
+(* totality: for EVERY time the evaluation answers -- between two consecutive levels or the last level *)
+Theorem env_at_total : forall sv e o t,
+  wf_env e -> offset e = Some o -> times_nonneg e -> times e <> [] ->
+  (forall k s, segment e k = Some s -> seg_inside sv (toQ (s_shape s)) (toQ (s_curve s))) ->
+  exists v k, env_at_with sv e t = Ok v /\ (k <= length (times e))%nat
+    /\ ((k < length (times e))%nat -> between (level_at e k) (level_at e (S k)) v)
+    /\ (k = length (times e) -> v = level_at e k).
+Proof. intros sv e o t Hwf Ho Hn. exact (C19_at.env_at_total sv e o Hwf Ho Hn t). Qed.
+(* the raising branches of the evaluation *)
+Theorem env_at_raises : forall sv e t, wf_env e ->
+  (offset e = None -> env_at_with sv e t = Err TypeError)
+  /\ (forall o, offset e = Some o -> times e = [] -> env_at_with sv e t = Err ValueError).
+Proof.
+  intros sv e t Hwf. split; [apply env_at_offset_none; exact Hwf|].
+  intros o Ho Ht. exact (env_at_no_segment sv e o t Hwf Ho Ht).
+Qed.
+
 (* --- the hypotheses hold: every interpolant start + (target - start) * phi(pos) with phi 0 = 0 and
        0 <= phi <= 1 on [0, 1); and the code's own rational shapes for every transcendental evaluator X -- *)
 Theorem phi_interpolants_admissible : forall (sv : SV) (k c : Q) (phi : Q -> Q),
@@ -169,9 +243,7 @@ Theorem sine_welch_admissible : forall X c,
   (cos_ok X -> seg_inside (seg_value X) (inject_Z 3) c /\ seg_starts (seg_value X) (inject_Z 3) c)
   /\ (sin_ok X -> seg_inside (seg_value X) (inject_Z 4) c /\ seg_starts (seg_value X) (inject_Z 4) c).
 Proof. intros X c. exact (conj (sine_ok X c) (welch_ok X c)). Qed.
-(* partial: exp, numeric curvature above the threshold, sqr: covered by the float-level probes only
-   (exp needs non-zero levels of one sign -- documented; sqr needs non-negative levels: the shape
-   squares its interpolant, so a negative level cannot be reached) *)
+(* exp, numeric curvature above the threshold, sqr, cub: over the reals, below *)
 
 (* --- cubed, over the reals, on the REGENERATED bi.pow: the sign of the base is kept ----------------- *)
 Open Scope R_scope.
@@ -185,7 +257,37 @@ Proof. exact cub_start_ideal. Qed.
 Theorem cub_segment_between_R : forall c s t pos : R, 0 <= pos <= 1 ->
   (cubR c s t 0 <= cubR c s t pos <= cubR c s t 1) \/ (cubR c s t 1 <= cubR c s t pos <= cubR c s t 0).
 Proof. exact cub_between. Qed.
-(* partial: with the source's exponent 0.3333333 the start value is sign(s) * |s| ^ 0.9999999, not s *)
+(* with the SOURCE's exponent c the start value is s * |s| ^ (3c - 1): the law "returns its level at the
+   breakpoint" holds exactly only for |s| = 1; the distance is bounded for every exponent, and for
+   the source's 0.3333333 it is at most 2.5e-7 * |ln |s|| relative (|ln |s|| <= 1000) *)
+Theorem cub_segment_start_closed_form_R : forall c s t : R, s <> 0 ->
+  cubR c s t 0 = s * Rpower (Rabs s) (3 * c - 1).
+Proof. exact cub_start_closed_form. Qed.
+Theorem cub_segment_start_error_R : forall c s t : R, s <> 0 ->
+  let x := (3 * c - 1) * ln (Rabs s) in
+  Rabs x < 1 -> Rabs (cubR c s t 0 - s) <= Rabs s * (Rabs x / (1 - Rabs x)).
+Proof. exact cub_start_error. Qed.
+Theorem cub_segment_start_source_exponent_R : forall s t : R, s <> 0 -> Rabs (ln (Rabs s)) <= 1000 ->
+  Rabs (cubR env_cub_exponentR s t 0 - s) <= Rabs s * (Rabs (ln (Rabs s)) / 4000000).
+Proof. exact cub_start_source_exponent. Qed.
+
+(* --- exponential: domain = levels non-zero and of one sign (documented): 0 < s * t ----------------- *)
+Theorem exp_segment_R : forall s t : R, 0 < s * t ->
+  expR s t 0 = s /\ expR s t 1 = t /\ (forall pos, 0 <= pos <= 1 -> betweenR s t (expR s t pos)).
+Proof. exact exp_segment. Qed.
+(* --- numeric curvature, both branches (|curve| below / above the threshold): every curve, all levels  *)
+Theorem curve_segment_R : forall c s t : R,
+  curveR c s t 0 = s /\ curveR c s t 1 = t /\ (forall pos, 0 <= pos <= 1 -> betweenR s t (curveR c s t pos)).
+Proof. exact curve_segment. Qed.
+(* --- squared with the sign-keeping square (bi.sqrt is sign-symmetric): ALL levels; the plain square of
+       the snapshot agrees on non-negative levels and can never reach a negative start level --------- *)
+Theorem sqr_segment_R : forall s t : R,
+  sqrR s t 0 = s /\ sqrR s t 1 = t /\ (forall pos, 0 <= pos <= 1 -> betweenR s t (sqrR s t pos)).
+Proof. exact sqr_segment. Qed.
+Theorem sqr_plain_square_R : forall s t : R,
+  (forall pos, 0 <= s -> 0 <= t -> 0 <= pos <= 1 -> sqrR_plain s t pos = sqrR s t pos)
+  /\ (s < 0 -> sqrR_plain s t 0 <> s).
+Proof. intros s t. split; [intros pos; apply sqr_plain_nonneg|apply sqr_plain_negative_start]. Qed.
 Close Scope R_scope.
 
 (* --- non-vacuity: the hypotheses are satisfiable and the model computes ----------------------------- *)
@@ -207,3 +309,5 @@ Proof. repeat constructor; discriminate. Qed.
 Print Assumptions env_format_layout.
 Print Assumptions env_at_between_neighbours.
 Print Assumptions cub_segment_starts_on_its_side_R.
+Print Assumptions env_at_total.
+Print Assumptions ctor_breakpoints_pairs.
